@@ -510,6 +510,9 @@ func (e *Explorer) free() bool {
 		return tok == "f1"
 	}
 	e.pos++
+	if e.Debug && len(CallStack) > 0 {
+		fmt.Fprintln(os.Stderr, "FREE-CHOICE in", CallStack[len(CallStack)-1].String())
+	}
 	alt := append(append([]string(nil), e.trail...), "f0")
 	e.pending = append(e.pending, alt)
 	e.trail = append(e.trail, "f1")
@@ -640,8 +643,12 @@ func (s Sym) sort() string {
 
 func (e *Explorer) record(kind, msg string, final bool, extra string) {
 	r := PathResult{Kind: kind, Msg: msg, Prefix: strings.Join(e.trail, " "), Instrs: e.Instrs, Final: final}
-	for k := len(CallStack) - 1; k >= 0 && len(r.Stack) < 8; k-- {
-		r.Stack = append(r.Stack, CallStack[k].String())
+	cs := CallStack
+	if final && abortStack != nil {
+		cs = abortStack
+	}
+	for k := len(cs) - 1; k >= 0 && len(r.Stack) < 8; k-- {
+		r.Stack = append(r.Stack, cs[k].String())
 	}
 	if len(r.Stack) > 0 {
 		r.Where = r.Stack[0]
@@ -716,6 +723,8 @@ func (e *Explorer) RunPrefix(j *Job, prefix []string, concrete map[string]uint64
 	e.IsConcrete = concrete != nil
 	if j.MaxPreempt > 0 {
 		MaxPreempt = j.MaxPreempt
+	} else if j.MaxPreempt < 0 {
+		MaxPreempt = 0 // deterministic scheduling: switches only at blocking operations
 	}
 	if !e.IsConcrete {
 		if e.z.dead {
@@ -726,6 +735,7 @@ func (e *Explorer) RunPrefix(j *Job, prefix []string, concrete map[string]uint64
 	}
 	CallStack = nil
 	firstHostStack = ""
+	abortStack = nil
 	initDepth = 0
 	resetSched()
 	resetModels()
